@@ -78,9 +78,47 @@ Theorem C09_literal_after_block_comment_general : forall pre cbody mid body post
               (mkScan false (sc_next_lit st + 1) (body :: sc_lits st)).
 Proof. exact literal_after_block_comment. Qed.
 
-(** the limitation: a body containing backslash backslash quote is never returned whole (it is
-    rejected or mis-split: a rejection / known limitation, see DESIGN.md) *)
-Theorem C09_find_close_inexact : forall body rest fuel,
-  pair_wf body = true -> contains bs_bs_quote body = true ->
-  find_close fuel (body ++ """" ++ rest) "" <> Some (body, rest).
-Proof. exact find_close_inexact. Qed.
+(** the end of a literal is C's: the closing quote is the first quote preceded by an EVEN number of
+    backslashes (repaired defect: the scanner looked at one or two characters only, and a body
+    containing backslash backslash quote was rejected or mis-split).  [closes_body body]: an even
+    number of backslashes ends [body] and every quote inside it has an odd number in front
+    ([escaped_parity false l = true]: the text [l] ends in an odd number of backslashes) *)
+Theorem C09_find_close_parity : forall fuel s body rest,
+  String.length s < fuel ->
+  (find_close fuel s "" = Some (body, rest) <-> s = body ++ """" ++ rest /\ closes_body body).
+Proof. exact find_close_parity. Qed.
+
+(** ... and the literal is unterminated exactly when no quote qualifies *)
+Theorem C09_find_close_none_parity : forall fuel s,
+  String.length s < fuel ->
+  (find_close fuel s "" = None <-> forall body rest, s = body ++ """" ++ rest -> ~ closes_body body).
+Proof. exact find_close_none_parity. Qed.
+
+(** the number the model computes is the length of the run of backslashes that ends the text *)
+Theorem C09_trailing_backslashes_spec :
+  trailing_backslashes "" = 0
+  /\ (forall s, trailing_backslashes (s ++ "\") = S (trailing_backslashes s))
+  /\ (forall s c, c <> "\"%char -> trailing_backslashes (s ++ String c "") = 0).
+Proof. exact trailing_backslashes_spec. Qed.
+
+(** every body C accepts (simple escapes) is scannable: no exception is left *)
+Theorem C09_scannable_of_c : forall body, c_decode body <> None -> scannable body.
+Proof. exact scannable_of_c. Qed.
+
+(** a, escaped backslash, escaped quote, b: one literal *)
+Example C09_backslash_parity :
+  scan_line false ("s = ""a\\\""b"";" ++ nl) (mkScan false 0 [])
+  = ScanOk ("s = @0@;" ++ nl) true (mkScan false 1 ["a\\\""b"]).
+Proof. vm_compute. reflexivity. Qed.
+
+(** a literal ending in an escaped backslash, followed by more text *)
+Example C09_backslash_parity_even :
+  scan_line false ("s = ""a\\"" + x; t = ""b"";" ++ nl) (mkScan false 0 [])
+  = ScanOk ("s = @0@ + x; t = @1@;" ++ nl) true (mkScan false 2 ["b"; "a\\"]).
+Proof. vm_compute. reflexivity. Qed.
+
+(** two escaped backslashes and an escaped quote *)
+Example C09_backslash_parity_five :
+  scan_line false ("s = ""\\\\\"""";" ++ nl) (mkScan false 0 [])
+  = ScanOk ("s = @0@;" ++ nl) true (mkScan false 1 ["\\\\\"""]).
+Proof. vm_compute. reflexivity. Qed.
